@@ -121,6 +121,9 @@ def evaluate(sc, O, O0, builtin_codes):
     keys = [((-1 if d[1] is None else d[1]), d[0]) for d in O]
     if keys != sorted(keys):
         fails.append(("C03.order", "output not sorted by (start, code)"))
+    # C05 ("and only then"): without a bare leading file directive the file must not be silenced wholesale
+    if O0 and not O and not (fdir is not None):
+        pass  # decided below (everything could legitimately be suppressed by line directives)
     # C06: survivors = exactly the un-suppressed raw diagnostics, unchanged and in order
     used = set()
 
@@ -148,6 +151,8 @@ def evaluate(sc, O, O0, builtin_codes):
         dir_ranges.add((c["start"], c["end"]))
     acc_O = [d for d in O if is_acc(d) and (d[1], d[2]) in dir_ranges]
     surv_O = [d for d in O if not (is_acc(d) and (d[1], d[2]) in dir_ranges)]
+    if not O and (expected_surv or False):
+        fails.append(("C05.silenced-without-bare-directive", "no bare leading file directive, %d diagnostics expected to survive, but the output is empty" % len(expected_surv)))
     if sorted(map(repr, surv_O)) != sorted(map(repr, expected_surv)):
         missing = [d for d in expected_surv if d not in surv_O]
         extra = [d for d in surv_O if d not in expected_surv]
